@@ -1,0 +1,62 @@
+//! Verification hooks for the `filter` unit's metrics (area UnitMetrics,
+//! feature `verif-hooks`, add-only). A child module of `filter::unit`
+//! because `RotoFilterRunner` and its fields are private there.
+//!
+//! `filter_payload` is `todo!()` in this tree, so nothing in the unit ever
+//! calls `RotoFilterStatusReporter::message_filtered`. The probe builds the
+//! runner through the real `RotoFilterRunner::new` (which registers the
+//! real `RotoFilterMetrics` with the component's metrics collection) and
+//! lets a harness make the reporter call the commented-out filter code made
+//! (`status_reporter.message_filtered(ingress_id)`), send updates through
+//! the real `direct_update`, and read the metrics.
+
+use std::sync::Arc;
+
+use super::RotoFilterRunner;
+use crate::common::status_reporter::AnyStatusReporter;
+use crate::comms::{DirectUpdate, Gate, GateAgent, GraphStatus};
+use crate::ingress::IngressId;
+use crate::manager::Component;
+use crate::payload::Update;
+use crate::roto_runtime::types::FilterName;
+
+/// A real `filter` unit runner on a gate of its own.
+pub struct FilterMetricsProbe {
+    runner: RotoFilterRunner,
+    _agent: GateAgent,
+}
+
+impl FilterMetricsProbe {
+    /// `RotoFilterRunner::new(gate, component, filter_name)`, unchanged.
+    pub fn new(component: Component, filter_name: &str) -> Self {
+        let (gate, agent) = Gate::new(0);
+        let runner = RotoFilterRunner::new(
+            gate,
+            component,
+            FilterName::from(filter_name.to_string()),
+        );
+        Self { runner, _agent: agent }
+    }
+
+    /// `RotoFilterStatusReporter::message_filtered`, unchanged.
+    pub fn message_filtered(&self, ingress_id: IngressId) {
+        self.runner.status_reporter.message_filtered(ingress_id)
+    }
+
+    /// The unit's `DirectUpdate::direct_update` (what an upstream gate calls).
+    pub async fn direct_update(&self, update: Update) {
+        self.runner.direct_update(update).await
+    }
+
+    /// The unit's metrics as the `metrics::Source` the manager renders.
+    pub fn metrics_source(&self) -> Arc<dyn crate::metrics::Source> {
+        self.runner.status_reporter.metrics().unwrap()
+    }
+
+    /// What `/status/graph` shows for the unit (`ReportLinks` hands out the
+    /// gate's metrics).
+    pub fn graph_status(&self) -> (String, Option<bool>) {
+        let m = self.runner.gate.metrics();
+        (m.status_text(), m.okay())
+    }
+}
